@@ -59,6 +59,7 @@ ASSUMPTIONS = [
     "closest encloser and nearest neighbours are taken among non-occluded names (below a cut the encloser is the cut), the reading under which the unchanged code is right except for D19/D20",
     "bounds presupposes an apex node (the code asserts it); histories without an apex node are compared on the error family only",
     "the state of a new zone (plain initial version vs empty B-tree version) and the SOA-owner check of the transaction layer are outside C20: the former is probed and passed to the model, the latter is never exercised off the apex",
+    "a share of the histories runs with the B-tree order forced to 3 or 4 (dns.btree.BTree/BTreeDict/BTreeSet.__init__.__kwdefaults__['t'] rebound in the harness process only, restored in a finally) so that small zones are multi-level trees; the zone layer never reads t",
     "hypotheses of the theorems: zone origin absolute; owner names are legal dns.name.Name label lists (only the last label may be empty); an NS rdataset has covers = NONE",
 ]
 
@@ -319,6 +320,26 @@ def api_view(version, apex_key):
 
 
 def evaluate(case):
+    """`case["t"]` (3 or 4) forces a small B-tree order for the duration of this history, so that zones of 10-60 names
+    are trees of 2-3 levels and every split / merge / steal / copy-on-write of an interior node happens under the zone
+    layer.  The defaults are rebound in this process only and restored in a `finally`."""
+    t = case.get("t")
+    if not t:
+        return _evaluate(case)
+    import dns.btree
+    inits = [dns.btree.BTree.__init__, dns.btree.BTreeDict.__init__, dns.btree.BTreeSet.__init__]
+    saved = [dict(f.__kwdefaults__) for f in inits]
+    try:
+        for f in inits:
+            f.__kwdefaults__["t"] = int(t)
+        return _evaluate(case)
+    finally:
+        for f, kw in zip(inits, saved):
+            f.__kwdefaults__.clear()
+            f.__kwdefaults__.update(kw)
+
+
+def _evaluate(case):
     """run case["items"] on the implementation.  Returns (trace line, spec line, failures) where failures are
     (signature, what) pairs of the direct oracle."""
     rel = bool(case["rel"])
@@ -1129,6 +1150,8 @@ def gen_history(rng, avoid=False, queries=True, malformed=False):
             if malformed:
                 items.append("Q:" + enc([b"a", b"other", b""]))
     c = {"kind": "hist", "rel": rel, "origin": hexl(origin), "items": items}
+    if rng.chance(1, 3):
+        c["t"] = rng.choice([3, 4])   # multi-level trees under the zone layer
     if rng.chance(1, 5):
         c["cls"] = "CH"        # the zone's class is an option the flag logic must honour (node.get_rdataset(zone.rdclass, NS))
     return c
@@ -1286,8 +1309,35 @@ def gen_bigindex(rng, ncuts, commit):
             "hq": [enc(q + suf) for q in qs]}
 
 
+def gen_multilevel(rng):
+    """B-tree order 3 or 4: grow a zone past several leaf splits, then *replace* every existing name (the median of
+    a full leaf included), touch, delete half of the names (rebalancing) and re-add some, in separate transactions
+    (earlier versions stay held and are re-read at the end), with cuts and glue among the names"""
+    origin = [b"example", b""]
+    rel = rng.chance(1, 2)
+    suf = [] if rel else origin
+    n = rng.choice([10, 14, 20, 33, 60])
+    names = [[b"n%02d" % i] for i in range(n)]
+    cuts = [names[i] for i in sorted({n // 4, n // 2, n - 2})]
+    glue = [[b"g"] + c for c in cuts] + [[b"h", b"g"] + cuts[0]]
+    put = lambda op, nm, k: f"{op}:{enc(nm + suf)}:{k[0]}:{k[1]}"
+    qs = ["Q:" + enc(q + suf) for q in [cuts[0], [b"g"] + cuts[1], [b"zz"] + cuts[-1], names[0], names[-1], [b"n"], [b"zzz"], []]]
+    items = ["T11", put("p", [], (6, 0)), put("p", [], (2, 0))]
+    items += [put("p", nm, (2, 0) if nm in cuts else (1, 0)) for nm in rng.shuffle(names + glue)] + qs
+    items += ["T01"] + [put("r", nm, (2, 0) if nm in cuts else (1, 0)) for nm in rng.shuffle(names + glue)] + qs
+    items += ["T01"] + [put("p", nm, (16, 0)) for nm in rng.shuffle(names)[: n // 2]]
+    gone = rng.shuffle(names + glue)[: (n + len(glue)) // 2]
+    items += ["T01"] + [f"dn:{enc(nm + suf)}" for nm in gone] + qs
+    items += ["T0" + ("1" if rng.chance(3, 4) else "0")] + [put("p", nm, (2, 0) if nm in cuts else (1, 0)) for nm in rng.shuffle(gone)[: len(gone) // 2]]
+    items += ["T01"] + [put("r", nm, (1, 0)) for nm in names[:3]] + qs
+    return {"kind": "hist", "rel": rel, "origin": hexl(origin), "items": items, "t": rng.choice([3, 3, 4]),
+            "hq": [q[2:] for q in qs]}
+
+
 def run_case(ctx, c, tag):
-    ctx.case((tag, c["rel"], tuple(c["origin"]), tuple(c["items"]), str(c.get("load")), c.get("cls")), sample=c)
+    ctx.case((tag, c["rel"], tuple(c["origin"]), tuple(c["items"]), str(c.get("load")), c.get("cls"), c.get("t")), sample=c)
+    if c.get("t"):
+        ctx.count("gen.btree-order-%d" % c["t"])
     if c.get("cls"):
         ctx.count("gen.class-CH")
     ctx.count("gen." + tag)
@@ -1313,6 +1363,8 @@ def generate(ctx: Ctx, scale: int, rng):
                   list(range(245, 262)) + list(range(372, 390)) + [506, 507, 508, 509]):
         for _ in range(1 if scale == 1 else 4):
             run_case(ctx, gen_big(rng, total), "big-zone")
+    for _ in range(n(14)):
+        run_case(ctx, gen_multilevel(rng), "multilevel")
     for ncuts in ([253, 254, 380] if scale == 1 else [126, 127, 252, 253, 254, 255, 379, 380, 381, 507]):
         for commit in (False, True):
             run_case(ctx, gen_bigindex(rng, ncuts, commit), "big-index." + ("commit" if commit else "abort"))
